@@ -24,6 +24,12 @@ def queries(tier):
           Query("bitreader_step", "C04_lzh.cpp", "h_bitreader_step", {}, unwind=12, desc="ReadNextBit / ReadNext8Bits from an arbitrary valid BitStreamReader state over <= 4 symbolic bytes: MSB-first bits, zeros past the end, no read outside the buffer")]
     qs.append(Query("repeat_offset", "C04_lzh.cpp", "h_repeat_offset", {}, unwind=30, timeout=600, redirects={TREECTOR: "stub_TreeCtor"},
                     desc="HuffLZ::GetRepeatOffset on the real decoder object at every bit alignment 0..7 over 3 symbolic input bytes: equals the format's position code, < 4096, consumes 9..14 bits (only the Huffman tree constructor is stubbed)"))
+    DCODE = "_ZN10OP2Utility7Archive6HuffLZ14DecompressCodeEv"
+    qs.append(Query("fill_step", "C04_lzh.cpp", "h_fill_step", {"RING": 1}, unwind=30, timeout=600, redirects={TREECTOR: "stub_TreeCtor", DCODE: "stub_DecompressCode_ring"}, native_redirects={DCODE: "stub_DecompressCode_ring"},
+                    desc="HuffLZ::FillDecompressBuffer from ARBITRARY ring indices, DecompressCode replaced by its index contract (appends 1..60 bytes): a code is decoded only while 60 more bytes fit, "
+                         "so pending data never wraps to 'empty'; nothing is decoded at end of stream; an empty ring is refilled"))
+    qs.append(Query("internal_buffer_step", "C04_lzh.cpp", "h_internal_buffer_step", {"RING": 1}, unwind=30, timeout=600, redirects={TREECTOR: "stub_TreeCtor", DCODE: "stub_DecompressCode_ring"}, native_redirects={DCODE: "stub_DecompressCode_ring"},
+                    desc="HuffLZ::GetInternalBuffer at end of stream from ARBITRARY ring indices: pointer at the read index, length = pending bytes up to the window end, inside the window, 0 exactly when empty, read index advances modulo 4096"))
     # NOT RUN (kept in harness/C04_lzh.cpp: h_decompress_code, h_decode, h_copy_available): every query that puts the 4 KiB window of the real HuffLZ object
     # under symbolic execution exceeded the budget - DecompressCode from an arbitrary window: symex 130 s, 242 k steps, SAT not finished
     # after 30 min at 8 GB (also with a concrete patterned window, concrete write index, field sensitivity 64 and 8192); whole decoder over
